@@ -135,9 +135,9 @@ CLAIMS = {
         "capacity zero reachable from drain/Drain (MOD1); every RangeBounds form translated as documented (RANGE1). Also DRNVIEW1 (views bounded by iter), VIEWCMP1 (contiguity test), KIND1 on the Drain functions, ITERSET1 for Drain. Not "
         "decided: back-fill arithmetic, order preservation, termination (values). SUB1/RIDX1 restricted to the drain code (thorough "
         "tier: also on the debug-assertion build, whose assertion arithmetic is code too).",
-        note="Assumed (reviewed) struct invariant of Drain, an axiom of the guard reasoning: range.start <= iter.start <= iter.end <= "
-        "range.end <= buf_size <= N. Trusted: std's Range<usize> iterator and RangeBounds impls. Which slots the un-yielded slices cover "
-        "(Drain::as_mut_slices bounds) is value-level and not decided.",
+        note="Which slots the un-yielded views cover is decided by VIEW2 + DRNVIEW1 (pieces of the circular interval add_mod(start, iter.start, N) -> "
+        "add_mod(start, iter.end, N)). Assumed (reviewed) struct invariant of Drain, an axiom of the guard reasoning: range.start <= iter.start <= iter.end <= "
+        "range.end <= buf_size <= N. Trusted: std's Range<usize> iterator and RangeBounds impls. ",
         ref="DESIGN.md §5 C09",
     ),
     "C10": dict(
@@ -268,7 +268,11 @@ CLAIMS = {
         "as_mut_slices; to_vec/Debug/Hash/PartialOrd/Ord/&IntoIterator -> iter), that get/front/back (and pop/remove) "
         "answer None only over an edge establishing N==0, size==0 or index>=size and Some only under index<size / size>0 "
         "(NONE1), and that each mutable accessor performs the same steps on the same operands as its shared twin (TWIN "
-        "x11, plus the 8 Iter/IterMut range-view pairs). Also: every view builds its single contiguous piece items[lower..upper] only where the guard facts entail lower < upper strictly and splits/rotates the array only where they entail upper <= lower, whatever the spelling of the test (VIEWCMP1); front/back-like accessors that forward to get(_mut) do so only under size > 0 with the index size-1 resp. 0 (NONE1, forwarder form), index-kind inference (KIND1), Iter/IterMut override no provided iterator method (ITERSET1). Not decided: agreement of the two primitives with each other, make_contiguous's result, range selection.",
+        "x9, plus the 8 Iter/IterMut range-view pairs). The two primitives themselves (as_slices/as_mut_slices of the buffer and of Drain, "
+        "slices_uninit_mut, drop_range) are decided one by one by evaluating their slicing expressions to physical intervals of the "
+        "backing array (VIEW2): the contiguous form is ([lo,hi), empty), the wrapped form ([lo,N), [0,hi)) of the same lo and hi, the "
+        "interval is the occupied region [start, add_mod(start,size,N)) (the free region for slices_uninit_mut, the requested sub-range "
+        "for drop_range), and the pieces are returned first-then-second. Also: every view builds its single contiguous piece items[lower..upper] only where the guard facts entail lower < upper strictly and splits/rotates the array only where they entail upper <= lower, whatever the spelling of the test (VIEWCMP1); front/back-like accessors that forward to get(_mut) do so only under size > 0 with the index size-1 resp. 0 (NONE1, forwarder form), index-kind inference (KIND1), Iter/IterMut override no provided iterator method (ITERSET1). Not decided: make_contiguous's result, the selection arithmetic of range()/range_mut().",
         note="[twin]/shape rules: a behaviour-preserving rewrite of a forwarder or of one twin would also be reported. "
         "Distinctness of mutable references: borrow checker outside unsafe + closed table of unsafe producers (C03).",
         ref="DESIGN.md §5 C07",
